@@ -526,7 +526,11 @@ fn encodings(cx: &mut Ctx, count: u64, seed: u64) {
         let ascii_only = rng.chance(1, 3);
         let text: String = if i == 0 {
             // characters whose UTF-16 code units are themselves well-formed UTF-8 byte pairs (U+C3A9 = C3 A9, ..)
-            "k: \u{c3a9}\u{c5b4}\nl: [\u{c2a0}, \u{80c3}x]\n".to_owned()
+            // (big-endian: every non-ASCII unit is C3 A9 / C5 B4 / C2 A0 - the whole UTF-16BE text is valid UTF-8)
+            "k: \u{c3a9}\u{c5b4}\nl: [\u{c2a0}, x]\n".to_owned()
+        } else if i == 1 {
+            // (little-endian: units A9C3, 80C3, B4C5 are the byte pairs C3 A9, C3 80, C5 B4)
+            "k: \u{a9c3}\u{80c3}\nl: [\u{b4c5}, x]\n".to_owned()
         } else if ascii_only {
             // an ASCII-only document (the defect class of the pinned tree)
             format!("k: {}\nlist:\n  - true\n  - abc\n", rng.below(100))
